@@ -4,8 +4,8 @@ CONSTANTS
   MaxE = 2
   MaxP = 2
   MaxM = 1
-  AllowArm = FALSE
-  Patched = FALSE
+  AllowArm = TRUE
+  Patched = TRUE
   MaxOps = 5
   Mode = "gate"
 SPECIFICATION MCSpec
